@@ -121,6 +121,14 @@ fn gen(r: &mut Rng, focus: &str) -> Sess {
     if focus == "C13" { return gen_c13(r); }
     if focus == "C05" { return gen_c05(r); }
     let c14 = focus == "C14";
+    // a very large backlog (hundreds of thousands of lines pending at one take): judged by the oracle only (order and completeness)
+    if focus == "C15" && r.chance(1, 170) {
+        let n = *r.pick(&[270_000usize, 300_000, 530_000]);
+        let items: Vec<String> = (0..n).map(|i| format!("i{}", i)).collect();
+        return Sess { items, timeline: vec![(0, Act::Feed(n)), (0, Act::Eof)], init_query: r.pick(&["", "7", "i1"]).to_string(), exact: true, select1: false, exit0: false, sync: false,
+                      header_lines: *r.pick(&[0usize, 0, 2]), no_clear_if_empty: false, delays: vec![("hb.stopped", 1, 700)], set_ops: false, end: 0,
+                      preview_log: None, cmdq: None, tiebreak: None };
+    }
     // a source that has ended (often empty) before the first heartbeat looks at it: the result set is final with no matcher run at all
     if (c14 || focus == "C01") && r.chance(1, 10) {
         let n = *r.pick(&[0usize, 0, 0, 1, 2]);
@@ -230,7 +238,7 @@ fn parse_spec(spec: &str) -> Sess {
     for kv in spec.split(';') {
         let (k, v) = kv.split_once('=').unwrap_or((kv, ""));
         match k {
-            "items" => s.items = v.split(',').filter(|x| !x.is_empty()).map(|x| x.to_string()).collect(),
+            "items" => s.items = if let Some(n) = v.strip_prefix('#') { (0..n.parse::<usize>().unwrap()).map(|i| format!("i{}", i)).collect() } else { v.split(',').filter(|x| !x.is_empty()).map(|x| x.to_string()).collect() },
             "tl" => {
                 for e in v.split(',').filter(|x| !x.is_empty()) {
                     let (d, a) = e.split_once(':').unwrap();
@@ -279,7 +287,7 @@ fn spec_of(s: &Sess) -> String {
     let tl: Vec<String> = s.timeline.iter().map(|(d, a)| format!("{}:{}", d, match a {
         Act::Feed(k) => format!("F{}", k), Act::Eof => "E".into(), Act::Add(c) => format!("+{}", c), Act::Back => "-".into(), Act::Rotate => "R".into(), Act::Hb => "H".into(), Act::Cmd => "C".into(), Act::Settle => "S".into(), Act::SelAll => "A".into(), Act::TogAll => "T".into(), Act::DeselAll => "D".into(), Act::AppendSel => "P".into() })).collect();
     let dl: Vec<String> = s.delays.iter().map(|(n, k, ms)| format!("{}:{}:{}", n, k, ms)).collect();
-    format!("items={};tl={};q={};exact={};s1={};e0={};sync={};hl={};ncie={};setops={};end={};pvlog={};cmdq={};tb={};delays={}", s.items.join(","), tl.join(","), s.init_query,
+    format!("items={};tl={};q={};exact={};s1={};e0={};sync={};hl={};ncie={};setops={};end={};pvlog={};cmdq={};tb={};delays={}", if s.items.len() > 20000 { format!("#{}", s.items.len()) } else { s.items.join(",") }, tl.join(","), s.init_query,
         s.exact as u8, s.select1 as u8, s.exit0 as u8, s.sync as u8, s.header_lines, s.no_clear_if_empty as u8, s.set_ops as u8, s.end, s.preview_log.clone().unwrap_or_else(|| "-".to_string()), s.cmdq.clone().unwrap_or_else(|| "-".to_string()),
         s.tiebreak.as_ref().map(|t| t.replace(',', "+")).unwrap_or_else(|| "-".to_string()), dl.join(","))
 }
@@ -523,7 +531,10 @@ fn run(s: &Sess) -> Outcome {
             let _ = tx.send((Key::Null, Event::EvActAccept(None)));
         }
     }
-    let out = th.join().ok().flatten();
+    // the loop must return once it has been told to end (a deadlocked loop is abandoned and reported as a stall)
+    let t9 = Instant::now();
+    while !th.is_finished() && t9.elapsed() < Duration::from_millis(45000) { std::thread::sleep(Duration::from_millis(5)); }
+    let out = if th.is_finished() { th.join().ok().flatten() } else { stalled = true; None };
     let trace = V::trace_stop();
     let (is_abort, output, final_key, final_event, out_query) = match out {
         Some(o) => (o.is_abort, o.selected_items.iter().map(|i| i.output().to_string()).collect(), format!("{:?}", o.final_key), format!("{:?}", o.final_event), o.query.clone()),
@@ -950,6 +961,33 @@ fn header_case(r: &mut Rng) -> (String, Option<String>, String) {
 
 /// SpinLock: K threads increment a non-atomic counter J times each under the lock
 fn spin_case(r: &mut Rng) -> Option<String> {
+    // a lock released by someone who does not hold it makes the holder's own release spin for ever: run under a deadline
+    let seed = r.below(u64::MAX);
+    let h = std::thread::spawn(move || { let mut r2 = Rng::for_case(seed, 0); spin_body(&mut r2) });
+    let t0 = Instant::now();
+    while !h.is_finished() && t0.elapsed() < Duration::from_millis(30000) { std::thread::sleep(Duration::from_millis(5)); }
+    if h.is_finished() { h.join().unwrap_or(Some("SpinLock stress panicked".to_string())) }
+    else { Some("SpinLock stress did not finish within 30 s: a release (or an acquisition) spins for ever".to_string()) }
+}
+
+fn spin_body(r: &mut Rng) -> Option<String> {
+    // a long hold (the matcher keeps the pool lock for a whole pass): a waiter must stay out however long it waits
+    if r.chance(1, 4) {
+        let hold = *r.pick(&[60u64, 250, 600]);
+        let m = Arc::new(V::SpinLock::new(0u64));
+        let g = m.lock();
+        let m2 = m.clone();
+        let entered = Arc::new(AtomicUsize::new(0));
+        let e2 = entered.clone();
+        let h = std::thread::spawn(move || { let mut g2 = m2.lock(); e2.store(1, Ordering::SeqCst); *g2 += 1; });
+        std::thread::sleep(Duration::from_millis(hold));
+        let early = entered.load(Ordering::SeqCst);
+        if early != 0 { std::mem::forget(g); return Some(format!("SpinLock held for {} ms: a second thread entered while it was held", hold)); }
+        drop(g);
+        let _ = h.join();
+        let v = *m.lock();
+        return if early != 0 || v != 1 { Some(format!("SpinLock held for {} ms: a second thread entered while it was held (entered={}, counter={})", hold, early, v)) } else { None };
+    }
     let k = 2 + r.below(7) as usize;
     let j = 200 + r.below(2000) as usize;
     let m = Arc::new(V::SpinLock::new((0u64, 0u64)));
@@ -1163,12 +1201,18 @@ fn run_case(seed: u64, id: u64, focus: &str, spec: Option<&String>, outdir: &std
         else {
             let stale_ok = s.no_clear_if_empty && exp.is_empty() && o.run_start > 0;
             if o.output != exp && !stale_ok {
-                bad = Some(format!("at quiescence the list is {:?}, the matching items of the source are {:?} (query {:?}, regex {})", o.output, exp, o.final_query, o.regex));
+                bad = Some(if exp.len() > 60 || o.output.len() > 60 {
+                    let k = o.output.iter().zip(exp.iter()).position(|(a, b)| a != b).unwrap_or(o.output.len().min(exp.len()));
+                    format!("at quiescence the list has {} items, the matching items of the source are {}; they first differ at position {}: listed {:?}, expected {:?} (query {:?})", o.output.len(), exp.len(), k, o.output.get(k), exp.get(k), o.final_query)
+                } else {
+                    format!("at quiescence the list is {:?}, the matching items of the source are {:?} (query {:?}, regex {})", o.output, exp, o.final_query, o.regex)
+                });
             }
         }
     }
+    if bad.is_none() && o.stalled { bad = Some("the session stalled: no quiescent state within 20 s of the last input, or the event loop did not return within 45 s of being told to end".to_string()); }
     if let Some(b) = bad { out.push(format!("{}\tfail\t{}\t{}", id, esc(&b), esc(&input))); }
-    if has_append { out.push(format!("{}\tok\toracle-only", id)); return; }
+    if has_append || s.items.len() > 20000 { out.push(format!("{}\tok\toracle-only", id)); if s.items.len() > 20000 { out.push(format!("{}\tdist\tkind=big-backlog", id)); } return; }
     match session_case(&s, &o) {
         Some(t) => out.push(format!("{}\tcase\t{}", id, esc(&t))),
         None => out.push(format!("{}\tfail\tno trace recorded\t{}", id, esc(&input))),
